@@ -61,6 +61,7 @@ package scheduler
 //@   modifies *
 //@   ensures controls_kept: forall k core.InfoHash :: ((k in s.torrentControls) <==> old(k in s.torrentControls)) && s.torrentControls[k] == old(s.torrentControls[k])
 //@   ensures no_waiter_dropped: forall k core.InfoHash :: k in s.torrentControls ==> s.torrentControls[k].errors == old(s.torrentControls[k].errors) || oldAnswered(s.torrentControls[k])
+//@   assert completion_answers_every_waiter: at Producer.Produce#0 :: oldAnswered(ctrl) && len(ctrl.errors) == 0
 //@   loop 0 invariant progress: 0 - 1 <= rangeindex && rangeindex < len(ctrl.errors) && (forall j int :: 0 <= j && j <= rangeindex ==> sent(ctrl.errors[j]) >= 1)
 //@   loop 0 invariant same: ctrl != nil && allocated(ctrl) && (forall k core.InfoHash :: ((k in s.torrentControls) <==> old(k in s.torrentControls)) && s.torrentControls[k] == old(s.torrentControls[k]) && (k in s.torrentControls ==> s.torrentControls[k].errors == old(s.torrentControls[k].errors)))
 
